@@ -924,6 +924,15 @@ def iop4_case(rng, tier, op):
             a, b = rng.choice([(0, 0), (0, g), (g, 0)])
         else:
             b = g * gen_mag(rng, rng.choice([1, 2, 3, 3, 4, 5, 8]))
+        if op in ("gcdext", "ugcdext") and rng.chance(1, 3):
+            # gcd_ext_word / gcd_ext_dword with a ZERO cofactor of the primitive step (the remainder of the large operand divides
+            # the small one: s = 0, the sign of the rebuilt cofactor comes from -t), and with remainder 0 / 1
+            small = rng.choice([6, 12, 3 << (wb - 2), rng.bits(wb - 2) * 2 + 2]) if rng.chance(1, 2) else \
+                (rng.bits(2 * wb - 2) | (1 << wb)) * 2
+            divs = [d for d in (1, 2, 3, small // 2, small // 3 if small % 3 == 0 else 1, small) if d and small % d == 0]
+            rem = rng.choice(divs) % small
+            a = gen_mag(rng, rng.choice([3, 3, 4, 7])) // small * small + rem
+            b = small
         if rng.chance(1, 2):
             a, b = b, a
         return "iop %s %s %s" % (op, hx(a * rng.choice([1, -1])), hx(b * rng.choice([1, -1])))
